@@ -276,6 +276,17 @@ func TestRandomPairs(t *testing.T) {
 	rapid.Check(t, func(t *rapid.T) {
 		maxDigits := rapid.SampledFrom([]int{3, 8, 20, 60}).Draw(t, "maxDigits")
 		m := num.Random(t, maxDigits, 0, false, "m")
+		if rapid.IntRange(0, 5).Draw(t, "boundary") == 0 {
+			// machine-word and power-of-ten boundaries (a comparison that goes through a fixed-width
+			// integer or a float goes wrong around these)
+			m = rapid.SampledFrom([]string{"2147483647", "2147483648", "4294967295", "4294967296", "9007199254740992", "9007199254740993",
+				"9223372036854775807", "9223372036854775808", "18446744073709551615", "18446744073709551616", "18446744073709551617",
+				"10000000000000000000", "20000000000000000000", "99999999999999999999", "100000000000000000000", "28446744073709551616",
+				"340282366920938463463374607431768211456", "0.1", "0.30000000000000004", "1.7976931348623157"}).Draw(t, "boundaryM")
+			if rapid.IntRange(0, 3).Draw(t, "boundaryNeg") == 0 {
+				m = "-" + m
+			}
+		}
 		rule := rapid.SampledFrom([]string{"min", "max", "xmin", "xmax", "enum", "const", "integer", "precision"}).Draw(t, "rule")
 		if rule == "precision" {
 			m = fmt.Sprint(rapid.IntRange(1, 40).Draw(t, "p"))
@@ -288,6 +299,15 @@ func TestRandomPairs(t *testing.T) {
 				n, kind = num.Random(t, maxDigits, rapid.SampledFrom([]int{3, 30, 400}).Draw(t, "maxExp"), true, "n"), "random"
 				if rapid.Bool().Draw(t, "respellFresh") {
 					n, kind = num.Respell(t, n, true, "rs")
+				}
+			} else if rapid.IntRange(0, 3).Draw(t, "sameLen") == 0 {
+				// another number with an integer part of exactly the same length (and sign)
+				n, kind = num.SameLength(t, m, "sl"), "same-integer-length"
+				if rapid.IntRange(0, 2).Draw(t, "respellSL") == 0 {
+					n, _ = num.Respell(t, n, true, "rs")
+					if d1, ok1 := ref.ParseDecimal(n); !ok1 || d1.Expansion() == "" {
+						n = m
+					}
 				}
 			} else {
 				n, kind = num.Respell(t, m, true, "rs")
